@@ -54,6 +54,11 @@ def run(pid, tier):
         return out.finish()
     out.inconclusive += unit['inconclusive']
     report_failures(out, unit, 'aggcheck')
+    if unit.get('index_lost') and not out.violations and not out.inconclusive:
+        out.proof_lost.append('the complete percentile index obligation was skipped (%s); the end-to-end percentile contract (exhaustive native runs) '
+                              'and all other aggregator contracts passed' % unit['index_lost'])
+    elif unit.get('index_lost') and not out.violations:
+        out.inconclusive.append('percentile index obligation skipped: ' + unit['index_lost'])
     k = unit['kani']
     kres = k['results']
     ok = [h for h in k['harnesses'] if kres.get(h, {}).get('status') == 'SUCCESSFUL']
